@@ -96,6 +96,13 @@ def cases(tier, seed):
                 for s, e in _choices(rng, c0, c1):
                     if rng.random() < (0.35 if tier == "quick" else 1.0):
                         yield {"c0": c0, "c1": c1, "sp": s, "ep": e}
+    # many compared endpoints: w inputs buffered to w outputs against a revision that inverts exactly one of them
+    for w in (9, 10, 12):
+        for bad in (0, w - 1, w // 2):
+            ins = [[f"i{k}", "input", False] for k in range(w)]
+            c0_ = {"name": "w0", "nodes": ins + [[f"o{k}", "buf", True] for k in range(w)], "edges": [[f"i{k}", f"o{k}"] for k in range(w)], "bbs": {}}
+            c1_ = {"name": "w1", "nodes": ins + [[f"o{k}", "not" if k == bad else "buf", True] for k in range(w)], "edges": [[f"i{k}", f"o{k}"] for k in range(w)], "bbs": {}}
+            yield {"c0": c0_, "c1": c1_, "sp": None, "ep": None, "structure_only": True}
     n_rand = 120 if tier == "quick" else 2500
     for i in range(n_rand):
         cd = gen.random_circuit(rng, n_in=rng.randint(1, 4), n_gates=rng.randint(1, 5), max_fanin=3, p_const=0.3,
@@ -109,7 +116,7 @@ def cases(tier, seed):
         for c0, c1 in prs:
             ch = list(_choices(rng, c0, c1))
             for s, e in rng.sample(ch, min(3, len(ch))):
-                yield {"c0": c0, "c1": c1, "sp": s, "ep": e}
+                yield {"c0": c0, "c1": c1, "sp": s, "ep": e, "twice": rng.random() < 0.3}
 
 
 def run_case(case):
@@ -131,8 +138,12 @@ def run_case(case):
     pref = {f"c0_{n}" for n in c0.graph} | {f"c1_{n}" for n in cc1.graph}
     clash = bool(new_names & pref) or len({f"c0_{n}" for n in c0.graph} & {f"c1_{n}" for n in cc1.graph}) > 0 \
         or "sat" in S_eff or bool({f"dif_{e}" for e in E_eff} & (S_eff | {"sat"}))
+    S_arg, E_arg = (set(S) if S else None), (set(E) if E else None)
     try:
-        m = cg.tx.miter(c0, c1, startpoints=(set(S) if S else None), endpoints=(set(E) if E else None))
+        if case.get("twice"):
+            # an earlier call with the very same argument objects must not influence the one under test
+            cg.tx.miter(c0, c1, startpoints=S_arg, endpoints=E_arg)
+        m = cg.tx.miter(c0, c1, startpoints=S_arg, endpoints=E_arg)
     except ValueError as ex:
         if clash:
             return {"nontrivial": False, "failures": []}
@@ -141,6 +152,21 @@ def run_case(case):
         fails.append({"kind": "miter-inputs", "msg": f"inputs {sorted(m.inputs())} expected {sorted(S_eff)}"})
     if set(m.outputs()) != {"sat"}:
         fails.append({"kind": "miter-outputs", "msg": f"outputs {sorted(m.outputs())}"})
+    if case.get("structure_only"):
+        # wide case: simulate the miter on the all-zero and a few random input vectors instead of enumerating valuations
+        import random as _r
+        rr = _r.Random(7)
+        ins_m = sorted(m.inputs())
+        for t in range(6):
+            a = {i: (rr.random() < 0.5 if t else False) for i in ins_m}
+            v = oracle.simulate(m, a)
+            v0 = oracle.simulate(c0, {i: a[i] for i in c0.inputs()})
+            v1 = oracle.simulate(cc1, {i: a[i] for i in cc1.inputs()})
+            want = any(v0[e] != v1[e] for e in E_eff)
+            if v["sat"] != want:
+                fails.append({"kind": "miter-sat-wrong", "msg": f"{len(E_eff)} endpoints: sat={v['sat']} but endpoints differ={want} under {a}"})
+                break
+        return {"nontrivial": True, "failures": fails}
     try:
         vals = list(oracle.consistent_valuations(m))
     except oracle.OracleError:
